@@ -413,6 +413,8 @@ class Folder:
             return int(a[0] < 128)
         if base == "std::ops::RangeInclusive::new":
             return ("rangeincl", a[0], a[1])
+        if base == "std::ops::Range::contains" and isinstance(a[0], tuple) and a[0][0] == "Range" and isinstance(a[1], int):
+            return int(a[0][1] <= a[1] < a[0][2])
         if base == "std::ops::RangeInclusive::contains":
             r = a[0]
             if isinstance(r, tuple) and r[0] == "rangeincl":
